@@ -10,7 +10,8 @@
 //!    and nothing shortens the list in between;
 //!  * `param f i` — the list is parameter `i` of the enclosing function `f`
 //!    (through length-preserving steps: `iter`, `map`, `collect`, `&`, …): `f`
-//!    is a PARTIAL HELPER with a precondition on that parameter, and the
+//!    (and nothing has been taken out of it since the function began) is a
+//!    PARTIAL HELPER with a precondition on that parameter, and the
 //!    obligation moves to every call of `f` (`calls`, same evidence kinds,
 //!    closed transitively: a caller that forwards its own parameter becomes a
 //!    helper itself);
@@ -193,6 +194,8 @@ struct Walk<'a> {
     forwards: Vec<(usize, usize)>,
     /// inside a match arm `TypeDefinition::List(..) => …`
     in_list_arm: bool,
+    /// lists something has been taken out of since the function began: no longer as long as the parameter they came from
+    tainted: Vec<String>,
 }
 
 fn int_lit(e: &syn::Expr) -> Option<usize> {
@@ -258,7 +261,7 @@ impl Walk<'_> {
                 return Ev::Guard(k);
             }
         }
-        if let Some(i) = r.param {
+        if let (Some(i), false) = (r.param, self.tainted.contains(&r.text)) {
             self.forwards.push((i, need));
             return Ev::Param(self.f.name.clone(), i);
         }
@@ -426,6 +429,7 @@ impl Walk<'_> {
         }
     }
     fn shorten(&mut self, root: &str) {
+        self.tainted.push(root.to_string());
         self.facts.retain(|(t, _)| t != root);
         self.shorter.retain(|(a, b)| a != root && b != root);
     }
@@ -673,7 +677,7 @@ pub fn tclistops(repo: &Path) -> Result<String, String> {
         calls = vec![];
         let mut next = helpers.clone();
         for f in &funcs {
-            let mut w = Walk { f, helpers: &helpers, lets: vec![], facts: vec![], shorter: vec![], sites: vec![], calls: vec![], forwards: vec![], in_list_arm: false };
+            let mut w = Walk { f, helpers: &helpers, lets: vec![], facts: vec![], shorter: vec![], sites: vec![], calls: vec![], forwards: vec![], in_list_arm: false, tainted: vec![] };
             w.visit_block(&f.block);
             for (i, need) in &w.forwards {
                 let e = next.entry((f.name.clone(), *i)).or_insert(0);
